@@ -241,11 +241,19 @@ def finish_time_before_reboot(chk):
                 D.failed = D.failed or ('violated', 'system app id not consulted', None, st)
                 continue
             sysid = as_str(ex, st, Tree({}, sysid_ev[0].out, None))
-            offers = [ra for ra in F.update_apps if dval(ex, st, ra.id.t == sysid.t) == 1]
             undec = [ra for ra in F.update_apps if dval(ex, st, ra.id.t == sysid.t) is None]
             if undec:
-                D.failed = D.failed or ('inconclusive', 'system app comparison undecided', None, st)
+                # the code did not compare this offer's id with the system app id on this path: decide the
+                # clause under either answer
+                split = []
+                for c_ in (undec[0].id.t == sysid.t, undec[0].id.t != sysid.t):
+                    if ex.check(st, [c_]) == 'sat':
+                        s2 = st.clone()
+                        s2.pc.append(c_)
+                        split.append(s2)
+                res.extend(split)
                 continue
+            offers = [ra for ra in F.update_apps if dval(ex, st, ra.id.t == sysid.t) == 1]
             if offers:
                 cover.add('system-offered')
                 if len(tv) != 1 or not tv[0].name.endswith('set_string') or not (i_rec < tr.index(tv[0]) < rb[0]):
@@ -269,16 +277,25 @@ def finish_time_before_reboot(chk):
         o.cex = {'path': names_of(f[3])} if f[3] is not None else None
 
 
+KEEP = ('waited-for-reboot-arithmetic', 'first-seen-time', 'install-attempt-counter', 'finish-record-before-reboot',
+        'run-explored', 'waited-for-reboot-report', 'install-attempt-outcome')
+
+
 def run(chk):
-    waited_for_reboot(chk)
-    first_seen(chk)
-    install_attempts(chk)
-    finish_time_before_reboot(chk)
     import runmon, sutmon
-    runmon.c18_run(chk)
-    n0 = len(chk.obligations)
-    sutmon.monitor_start_update_check(chk, (1, 2))
-    chk.obligations = chk.obligations[:n0] + [o for o in chk.obligations[n0:] if o.name == 'install-attempt-outcome']
+    parts = ['helpers', 'finish', 'sut'] + runmon.parts(chk.tier)
+    if not chk.parallel(os.path.abspath(__file__), parts, post_merge=runmon.post_merge):
+        if chk.want('helpers'):
+            waited_for_reboot(chk)
+            first_seen(chk)
+            install_attempts(chk)
+        if chk.want('finish'):
+            finish_time_before_reboot(chk)
+        if chk.want('run'):
+            runmon.monitor_run(chk, chk.tier)
+        if chk.want('sut'):
+            sutmon.monitor_start_update_check(chk, (1, 2))
+    chk.obligations = [o for o in chk.obligations if o.name in KEEP or o.name.startswith('part:')]
     chk.bounds.update({'clock values': 'full width', 'apps': '<= 2', 'stored values': 'arbitrary Option<i64> / Option<String>'})
     chk.assumptions += [
         'storage results symbolic in the three helper explorations; in the perform_update_check exploration reports are delivered, plan creation and policy approve, storage writes succeed, wall clock monotone within +-2^40 s',
